@@ -252,7 +252,9 @@ def check_region(run, tname, what, body_nodes, tree, env, maxlen):
         known = {k["obligation"] for k in load_known_findings().get("C05", []) if k.get("class") == "key-differs-from-parameter-name"}
         for idx, r in enumerate(rs):
             r.group = f"flatten.{what}:" + ":".join(p for p in r.name.split(":")[2:] if not p.startswith(("path", "kinds=")))
-            if r.status != "discharged" and r.group in known:
+            # the recorded finding is about requests from another package only: a failure of the same shape on a request of the API's own package
+            # is not covered by it
+            if r.status != "discharged" and r.group in known and pb2:
                 nm, hy, g = obs[idx]
                 r2 = discharge(Obligation(nm, hy + [z3.Not(kf_class)], g), m.axioms(), run.timeout_ms, m)
                 if r2.status == "discharged":
